@@ -142,7 +142,7 @@ def c05(run):
                                    ("ExecuteNConcurrentMConcurrent", {"n": k, "m": n - k}), ("ExecuteNSortMConcurrent", {"n": 1, "m": n - 1}),
                                    ("ExecuteNConcurrentMSort", {"n": n - 1, "m": 1})])
             c = {"method": m, "via": "direct", "b": True, "names": [], "n": 0, "m": 0, "dag": [], "beh": {}, "tagset": [],
-                 "rep": T(run, 100, 400)}
+                 "rep": T(run, 160, 400)}
             c.update(extra)
             out.append({"id": 3000000 + i, "target": rng.choice(["engine", "pool"]), "gated": False, "rules": rules, "calls": [c]})
         # ... and small rule sets with ONE failing rule in the concurrent stage, called again and again: the failure is
@@ -166,7 +166,7 @@ def c05(run):
                        rule="sessions enumerated by TLC from ExecMC (mix, inverse mix, the three N-M models and their selected "
                             "variants; <=3 (thorough: 4) rules, tied saliences, every (N,M) split incl. invalid ones, outcomes ok/fail) "
                             "run under maximal-overlap gate steering on engine and pool, plus seeded random sessions (<=12 rules, some "
-                            "16-34) and wide rule sets (17-34 rules) called 100 (thorough 400) times each at natural speed; "
+                            "16-34) and wide rule sets (17-34 rules) called 160 (thorough 400) times each at natural speed; "
                             "distinct = distinct (rules, calls, target)")
 
 
